@@ -1,15 +1,15 @@
 SPECIFICATION Spec
 CONSTANTS
-  MaxLeaves = 2
+  MaxLeaves = 1
   MaxOps = 2
-  MaxStack = 2
-  VarSet <- VarsA
-  NumSet <- NumsA
-  FuncSet <- FuncsA
-  Toks <- ToksA
-  GToks <- GToksA
-  IntExps <- ExpsA
-  Wraps <- AllWraps
+  MaxStack = 1
+  VarSet <- VarsC
+  NumSet <- NoStrings
+  FuncSet <- NoStrings
+  Toks <- ToksC
+  GToks <- NoStrings
+  IntExps <- ExpsB
+  Wraps <- WrapsB
   Muts <- NoStrings
   Cors <- NoStrings
   Styles <- NoStrings
@@ -19,6 +19,7 @@ INVARIANT VerdictAgree
 INVARIANT FreeAgree
 INVARIANT MeaningAgree
 INVARIANT RenderBalanced
-
+INVARIANT Unbalanced
+CONSTRAINT EmitComplete
 CONSTRAINT EmitTables
 CHECK_DEADLOCK FALSE
